@@ -4,6 +4,7 @@ The refcount/tag/alignment argument for `tz::timezone::repr::Repr`:
 construct = +1, clone = +1, drop = -1, getters = 0, per tag and per pointee
 type, decided by specialising the abstract interpreter on each tag value.
 """
+from ..rules_r5 import utc_whole
 import itertools, re
 from .. import mir
 from ..absint import Analyzer, AV
@@ -76,6 +77,7 @@ def run(ctx, rep):
     rep.rule("SEND-SYNC", "every pointee type of an Arc operation in repr is Send + Sync (trait selection)")
     for cfg in ctx.configs:
         one_config(ctx, rep, cfg)
+    utc_whole(rep, ctx.prog("Q"))
 
 
 def one_config(ctx, rep, cfg):
